@@ -7,7 +7,7 @@
      gmemo_sound_when_faithful   any cache whose FAITHFUL hits return an entry stored for exactly that input: an evaluation in which
                                  no lossy hit occurs returns what the cache-free evaluation returns, keeps all ghost entries valid
      real_*_erase                the Real instance without its ghost state is Model/Cache.v's get / store / clear / is_empty
-     real_cache_adt              the Real instance satisfies the premises of gmemo_sound_when_faithful *)
+     (the Real instance's get / store / clear satisfy the premises of gmemo_sound_when_faithful: discharged inside memo_real_sound) *)
 From Coq Require Import List Bool Arith NArith Lia.
 From TV Require Import Num.Num Gen.CacheGen Model.Cache Model.Engine Model.EngineReal Proofs.EngineMemo.
 Import ListNotations.
